@@ -58,6 +58,14 @@ def _witness(ev):
     return s
 
 
+def _expand(case, by_id):
+    """a self-contained case: the history by value instead of by reference"""
+    c = {k: case[k] for k in ("plan", "root", "root2", "bare", "pre") if k in case and case[k] is not None}
+    if case.get("pre_ref"):
+        c["pre"] = [{"plan": by_id[i]["plan"], "root": by_id[i]["root"], "bare": by_id[i].get("bare", False)} for i in case["pre_ref"]]
+    return c
+
+
 def fn_names(ctx):
     pb = ctx.build("asmx")
     p = ctx.run([pb, "fns"])
@@ -84,7 +92,7 @@ def design(ctx, names):
 def gen_cases(ctx, names, parts=None, nrandom=None):
     """(b) TLC enumerates the plan families and random nested plans."""
     if parts is None:
-        parts = ["matrix012", "values2", "values1", "refs", "computed", "eqcont", "scratch", "nestlit", "arith", "cmp", "retval", "var3", "bigint", "implied", "route", "pathlike", "mutate", "forms"]
+        parts = ["matrix012", "values2", "values1", "refs", "computed", "eqcont", "scratch", "nestlit", "arith", "cmp", "retval", "var3", "bigint", "implied", "route", "cells", "modsign", "hist", "mutate", "forms"]
         if not ctx.quick:
             parts += ["matrix012b", "matrix3", "matrix4", "values3"]
     if nrandom is None:
@@ -101,7 +109,7 @@ def gen_cases(ctx, names, parts=None, nrandom=None):
             roots = rt[0]
         n = 0
         for c in r.printed("PL"):
-            key = json.dumps(c, sort_keys=True)
+            key = json.dumps(c, sort_keys=True) + ("#hist" if part == "hist" else "")     # (the history pool is kept whole)
             if key in seen:
                 continue
             seen.add(key)
@@ -122,7 +130,7 @@ def gen_cases(ctx, names, parts=None, nrandom=None):
                            simulate="num=%d" % max(1, nrandom // depth), depth=depth)
         return ctx.tlc("AsmGen", GEN_CFG % (big, part, fnset(names)), workers=1, timeout=900)
     todo = list(parts) + (["random"] if nrandom else [])
-    with cf.ThreadPoolExecutor(8) as ex:
+    with cf.ThreadPoolExecutor(12) as ex:
         for part, r in zip(todo, ex.map(gen, todo)):
             take(r, part)
     if roots is None:
@@ -131,6 +139,11 @@ def gen_cases(ctx, names, parts=None, nrandom=None):
         c["id"] = k + 1
         c["root2"] = roots[c["root"] + "b"]
         c["root"] = roots[c["root"]]
+    # histories: every plan of the pool runs after all the other pool plans (rotated, so that each plan is also the FIRST
+    # one of some history) in a fresh process, and alone in another one
+    hist = [c["id"] for c in cases if c.get("src") == "hist"]
+    for k, i in enumerate(hist):
+        cases[i - 1]["pre_ref"] = hist[k + 1:] + hist[:k]
     ctx.cov["generated_cases"] = per
     log("generated cases:", per)
     return cases
@@ -192,6 +205,12 @@ def locus_str(b):
         return "PlanUnchanged/%s/%s" % (loc[0], fn)
     if b["kind"] == "frame":
         return "SrcFrame/%s" % where
+    if b["kind"] == "hang":
+        return "hang/%s" % fn
+    if b["kind"] == "text-pipeline":
+        return "TextPipeline/%s/%s/%s" % (loc[0], fn, loc[1])
+    if b["kind"] == "history-dependent":
+        return "HistoryFree/%s" % fn
     return "/".join(str(x) for x in loc)
 
 
@@ -219,39 +238,25 @@ def run_trace(ctx, cases):
         # a single case (confirmation / replay) gets a generous limit before it counts as a hang
         p = ctx.run([pb, "exec"], stdin=fi, stdout=fo, check=False, timeout=3000,
                     env={"VERIF_HANG_S": "60"} if len(cases) <= 3 else None)
-    hang = None
-    if p.returncode == 3:
-        msg = p.stderr.decode(errors="replace")
-        line = [l for l in msg.splitlines() if l.startswith("HANG ")]
-        hang = json.loads(line[0][5:]) if line else {}
-    elif p.returncode != 0:
+    if p.returncode != 0:
         raise Infra("asmx exec failed: " + p.stderr.decode(errors="replace")[-2000:])
-    return tp, hang
+    return tp
 
 
 def judge_once(ctx, cases):
     """Execute the cases on the real code, let TLC (TraceAsm) judge; returns (records, n)."""
-    tp, hang = run_trace(ctx, cases)
-    if hang is not None:
-        # a call that did not come back within the watchdog limit: Execute is not total (the verdict is kind hang, never infra;
-        # the stand-alone confirmation re-runs the single case with a 60 s limit)
-        hp = hang.get("plan", {})
-        fo = hp
-        if hp.get("t") == "call" and hp.get("fn") == "set" and len(hp.get("a", [])) == 2 and hp["a"][1].get("t") == "call":
-            fo = hp["a"][1]
-        elif hp.get("t") == "call" and hp.get("fn") == "asm" and len(hp.get("a", [])) == 3 and hp["a"][1].get("t") == "call":
-            fo = hp["a"][1]
-        case = {k: hang[k] for k in ("plan", "root", "root2", "bare") if k in hang}
-        return [{"api": "asm.Plan.Execute", "kind": "hang", "locus": "hang/%s" % fo.get("fn", "?"),
-                 "witness": _witness(hang), "case": case, "detail": {"watchdog": "no return within the limit"}, "depth": 0, "plan": hp}], 0
+    tp = run_trace(ctx, cases)
+    # (a call that does not come back within the watchdog limit is the recorded outcome "hang"; the verdict - kind hang - is
+    # TraceAsm's Total obligation like every other one; the stand-alone confirmation re-runs the case with a 60 s limit)
     res = ctx.validate("TraceAsm", tp, cfg=TRACE_CFG, chunk=3100 if ctx.quick else 6000, timeout=1500)
-    ctx.cov["evaluations"] += res["n"] * 11
+    ctx.cov["evaluations"] += res["n"] * 13 + sum(len(c.get("pre_ref") or c.get("pre") or ()) + 1 for c in cases if c.get("pre_ref") or c.get("pre"))
     cells = getattr(ctx, "_cells", set())
     cells.update(res["hits"].keys())
     ctx._cells = cells
     recs = []
     lines = None
     idmap = {c.get("id"): c.get("root2") for c in cases}
+    by_id = {c.get("id"): c for c in cases}
     for b in res["bad"]:
         if lines is None:
             lines = open(tp, "rb").readlines()
@@ -259,13 +264,41 @@ def judge_once(ctx, cases):
         case = {"plan": ev["plan"], "root": ev["root"], "bare": ev.get("bare", False)}
         if idmap.get(ev["id"]) is not None:
             case["root2"] = idmap[ev["id"]]
+        src = by_id.get(ev["id"]) or {}
+        if src.get("pre_ref") or src.get("pre"):
+            case["pre"] = _expand(src, by_id)["pre"]
         detail = {"text": ev.get("text"), "root": root_name(ev["root"]), "runs": [("=run1" if r.get("eq") else r.get("r", "?") + (":" + r["m"] if r.get("m") else "")) for r in ev["runs"]],
                   "str": "=run1" if ev["str"].get("eq") else ev["str"].get("r"), "simp": "=run1" if ev["simp"].get("eq") else ev["simp"].get("r"),
                   "str_m": ev["str"].get("m"), "text_before": ev.get("text0"), "text_after": ev.get("text1"),
-                  "second_root": [ev["alt_same"].get("r"), "=same-object" if ev["alt_fresh"].get("eq") else ev["alt_fresh"].get("r")]}
-        recs.append({"api": "asm.Plan.Execute", "kind": b["kind"], "locus": locus_str(b), "witness": _witness(ev),
+                  "second_root": [ev["alt_same"].get("r"), "=same-object" if ev["alt_fresh"].get("eq") else ev["alt_fresh"].get("r")],
+                  "sen_text": ev.get("sen"), "text_runs": [("=run1" if r.get("eq") else r.get("r", "?") + (":" + r["m"] if r.get("m") else "")) for r in ev.get("txt", [])]}
+        if b["kind"] == "hang":
+            detail["watchdog"] = "no return within the limit; stuck in " + str(b["loc"][0])
+        wit = _witness(ev)
+        if case.get("pre"):
+            detail["alone"] = ev.get("alone", {}).get("r")
+            wit = {"after_%d_other_plans_e_g" % len(case["pre"]): node_text(case["pre"][-1]["plan"]), "then": wit}
+        recs.append({"api": "asm.Plan.Execute", "kind": b["kind"], "locus": locus_str(b), "witness": wit,
                      "case": case, "detail": detail, "depth": b["depth"], "plan": ev["plan"]})
     return recs, res["n"]
+
+
+def shrink_histories(ctx, recs):
+    """a history-dependent plan: find ONE earlier plan that is enough (each candidate history is executed and judged by TLC)"""
+    hd = {}
+    for r in recs:
+        if r["kind"] == "history-dependent" and len(r["case"].get("pre", ())) > 1:
+            hd.setdefault(r["locus"], r)
+    for locus, r in list(hd.items())[:4]:
+        cands = [dict(r["case"], pre=[q], id=k + 1) for k, q in enumerate(r["case"]["pre"])]
+        sub, _ = judge_once(ctx, cands)
+        sub = [x for x in sub if x["kind"] == "history-dependent" and x["locus"] == locus]
+        if sub:
+            best = min(sub, key=lambda x: _wsize(x["witness"]))
+            for x in recs:
+                if x["kind"] == "history-dependent" and x["locus"] == locus:
+                    x["case"], x["witness"], x["detail"] = best["case"], best["witness"], best["detail"]
+    return recs
 
 
 def judge(ctx, cases, shrink=True):
@@ -273,11 +306,13 @@ def judge(ctx, cases, shrink=True):
     (each sub-call is re-run as its own plan [set $.asm sub] and judged by TLC again)."""
     if isinstance(cases, str):
         cases = verif.read_ndjson(cases)
-    cases = [dict(c, id=k + 1) for k, c in enumerate(cases)]
+    if not any(c.get("pre_ref") for c in cases):
+        cases = [dict(c, id=k + 1) for k, c in enumerate(cases)]
     recs, _ = judge_once(ctx, cases)
     if not shrink:
         return recs
-    deep_all = [r for r in recs if r["depth"] > 1 and r["kind"] in ("wrong-value", "nondeterministic", "print-rebuild", "frame", "panic", "plan-changed")]
+    recs = shrink_histories(ctx, recs)
+    deep_all = [r for r in recs if r["depth"] > 1 and r["kind"] in ("wrong-value", "nondeterministic", "print-rebuild", "frame", "panic", "plan-changed") and not r["case"].get("pre")]
     if not deep_all:
         return recs
     # per (kind, locus) group the 8 smallest nested witnesses are shrunk; if all of them reduce to a sub-call the rest of
